@@ -12,6 +12,7 @@ import (
 	"verif/internal/gen"
 	"verif/internal/mon"
 	"verif/internal/ref"
+	"verif/internal/schema"
 	"verif/internal/val"
 )
 
@@ -438,7 +439,7 @@ func c03(e *Env) {
 	r.Assume("token positions come from the pinned schema and the generated value; layout differences other than byte order are C02's business and are not flagged here")
 	// ---- (a) primitives
 	if e.Only == "" || e.Only == "primitives" {
-		c := &primCtx{e: e, rng: gen.NewRng(e.Seed, "C03", "prim"), n: e.N(200, 5000), pairs: map[string]int{}}
+		c := &primCtx{e: e, rng: gen.NewRng(e.Seed, "C03", "prim"), n: e.N(600, 15000), pairs: map[string]int{}}
 		c.g = &gen.Gen{S: e.S, C: e.C, R: c.rng, O: &gen.Opts{}}
 		primAllPrefixesBasic[int8](c)
 		primAllPrefixesBasic[int16](c)
@@ -468,7 +469,7 @@ func c03(e *Env) {
 	}
 	// ---- (b) messages
 	types := e.Types()
-	n := e.N(60, 2000)
+	n := e.N(300, 10000)
 	cat := newFeatAcc()
 	e.Par(len(types), func(i int) {
 		t := types[i]
@@ -517,6 +518,23 @@ func c03(e *Env) {
 						"lib_bytes": val.Hex(got, 16), "expected_bytes": val.Hex(right, 16), "value": val.Summary(v, 400)})
 				}
 			}
+			// frames: a header word that carries the body byte count (or a trailer that carries the
+			// frame checksum) in the OPPOSITE byte order is a byte-order violation even when the pinned
+			// schema does not say the frame computes it (BSE passes the caller's value through)
+			if bl, trailerW, hdr, ok := frameGeometry(t, toks, len(lb)); ok && bl > 0 {
+				for _, tk := range toks {
+					if !tk.Num || tk.W != 4 || tk.Off >= hdr {
+						continue
+					}
+					right, wrong := refInt(4, uint64(bl), t.LE), refInt(4, uint64(bl), !t.LE)
+					got := lb[tk.Off : tk.Off+4]
+					if !bytes.Equal(right, wrong) && bytes.Equal(got, wrong) && !bytes.Equal(got, refInt(4, tk.Val, t.LE)) {
+						r.Violate("C03/msg-length-word-byte-order/"+t.QName, "C03/msg-length-word-byte-order/"+t.QName, map[string]any{
+							"type": t.QName, "case": ci, "token": tk.Path, "lib_bytes": val.Hex(got, 8), "body_bytes": bl, "observation": "the header word equals the body byte count rendered in the opposite byte order"})
+					}
+				}
+				_ = trailerW
+			}
 			if nonPal && !val.IsZero(v) {
 				local[val.Hash(v)] = struct{}{}
 			}
@@ -560,4 +578,37 @@ func c03(e *Env) {
 			}
 		}
 	}
+}
+
+// frameGeometry returns (body bytes, trailer width, header bytes) for a type that has a discriminated
+// body preceded by fixed header words: body = image - header - trailing scalar tokens after the body.
+func frameGeometry(t *schema.Type, toks []ref.Token, imgLen int) (int, int, int, bool) {
+	ui := -1
+	for i, f := range t.Fields {
+		if f.Kind == "union" && f.Key == "MsgType" {
+			ui = i
+		}
+	}
+	if ui < 0 {
+		return 0, 0, 0, false
+	}
+	hdr := 0
+	for _, f := range t.Fields[:ui] {
+		switch f.Kind {
+		case "bodylen":
+			hdr += schema.Width(f.Prefix)
+		default:
+			hdr += schema.Width(f.Kind)
+		}
+	}
+	tr := 0
+	for _, f := range t.Fields[ui+1:] {
+		switch f.Kind {
+		case "checksum":
+			tr += schema.Width(f.Prefix)
+		default:
+			tr += schema.Width(f.Kind)
+		}
+	}
+	return imgLen - hdr - tr, tr, hdr, true
 }
